@@ -172,6 +172,44 @@ def check_root(rec, case, spec, route):
             rec.fail(dict(case, pair=[i, j], route=route),
                      'converged solution (%s): g(r=%.4g) = %r inside the core of hard-core pair %s-%s; bound |F|/r = %.3g'
                      % (route, T.r[ii], float(g.data[ii, i, j]), T.types[i], T.types[j], float(bound[ii])), tags('core-solved'))
+    # the solved object is used further: the residual is looked at once more (cost at the root), and the solve is continued
+    # from its own solution - g(r) inside the cores is still bounded by the residual of the evaluation that produced it
+    for how in ('cost-again', 'continued'):
+        try:
+            with warnings.catch_warnings(), np.errstate(all='ignore'):
+                warnings.simplefilter('ignore')
+                if how == 'cost-again':
+                    F2 = np.asarray(P.cost(np.array(res.x, dtype=float)), dtype=float).reshape(L, n, n)
+                else:
+                    res2 = build.try_solve(P, route, guess=np.array(res.x, dtype=float))
+                    if res2 is None:
+                        rec.count('continued_solve_not_converged')
+                        continue
+                    F2 = np.asarray(res2.fun, dtype=float).reshape(L, n, n)
+                g2 = pyPRISM.calculate.pair_correlation(P)
+        except Exception as e:
+            if build._from_library(e):
+                rec.fail(dict(case, route=route, how=how), 'solved object (%s), %s: raised %s: %s' % (route, how, type(e).__name__, str(e)[:80]), tags('raises'))
+            continue
+        rec.trans()
+        for ij in T.U:
+            cm = T.core_mask(*ij)
+            if cm is None or not cm.any():
+                continue
+            i, j = ij
+            d = T.U[ij]
+            gg = np.abs(np.asarray(g2.data)[:, i, j])
+            with np.errstate(all='ignore'):
+                under = 0.0 if d['closure'][1] else np.exp(-d['u']) * 10
+            bound = 1.01 * np.abs(F2[:, i, j]) / T.r + 1e-9 + under
+            bad = cm & ~(gg <= bound)
+            if bad.any():
+                ii = int(np.argmax(np.where(bad, gg, 0)))
+                rec.fail(dict(case, pair=[i, j], route=route, how=how),
+                         'solved object (%s) after %s: g(r=%.4g) = %r inside the core of hard-core pair %s-%s; bound |F|/r = %.3g'
+                         % (route, 'one more cost evaluation at the root' if how == 'cost-again' else 'a continued solve from its own solution', T.r[ii],
+                            float(np.asarray(g2.data)[ii, i, j]), T.types[i], T.types[j], float(bound[ii])), tags('core-solved'))
+                break
     rec.trace()
     return np.array(res.x)
 
